@@ -480,7 +480,7 @@ def run_property(prop, tier, obligations, meta, seed=0, only=None, jobs=None, ke
 
 def replay_failure(slot, prop, ob, ov, caps, consts, logdir, unknown=None):
     """ask Kani for the concrete playback test of a failing harness and run it natively"""
-    outdir = os.path.join(VERIF, 'replays', prop, ob['id'].replace('/', '_'))
+    outdir = os.path.join(os.environ.get('VERIF_REPLAY_DIR', os.path.join(VERIF, 'replays')), prop, ob['id'].replace('/', '_'))
     shutil.rmtree(outdir, ignore_errors=True)
     os.makedirs(outdir)
     lf = os.path.join(logdir, ob['id'].replace('/', '_') + '.playback.log')
